@@ -283,6 +283,18 @@ func errB(err error) []byte {
 
 var always = func(*world) bool { return true }
 
+// orUnsupported runs f and turns a panic ("unsupported operation" of a target group) into a fixed
+// result. It recovers locally: core.Guard records the stack in a package variable, which two tasks
+// panicking at once would race on.
+func orUnsupported(f func() []byte) (out []byte) {
+	defer func() {
+		if recover() != nil {
+			out = []byte("unsupported")
+		}
+	}()
+	return f()
+}
+
 var calls = []call{
 	{"P.MarshalBinary", always, func(w *world) []byte { return enc(w.P) }, false},
 	{"Q.MarshalBinary", always, func(w *world) []byte { return enc(w.Q) }, false},
@@ -292,6 +304,13 @@ var calls = []call{
 	{"P.Equal(Q)", always, func(w *world) []byte { return []byte(fmt.Sprint(w.P.Equal(w.Q), w.Q.Equal(w.P), w.P.Equal(w.P))) }, false},
 	{"P.Clone", always, func(w *world) []byte { return enc(w.P.Clone()) }, false},
 	{"P.Data", func(w *world) bool { return w.P.EmbedLen() > 0 }, func(w *world) []byte { d, err := w.P.Data(); return append(d, errB(err)...) }, false},
+	// constructors: values a task makes for itself. They write only into the task's own object - unless
+	// the library initialises something shared on first use (seed C20i: bn254's GT generator was
+	// memoised lazily in a package variable). These matter most in a process that has not used the
+	// group yet: checks/C20.sh runs a cold-start phase of one run per process.
+	{"local.Base()", always, func(w *world) []byte { return orUnsupported(func() []byte { return enc(w.g.Point().Base()) }) }, false},
+	{"local.Mul(s,nil)", always, func(w *world) []byte { return orUnsupported(func() []byte { return enc(w.g.Point().Mul(w.s, nil)) }) }, false},
+	{"local.Null()+Scalar.One()", always, func(w *world) []byte { return append(enc(w.g.Point().Null()), encS(w.g.Scalar().One())...) }, false},
 	{"local.Add(P,Q)", always, func(w *world) []byte { return enc(w.g.Point().Add(w.P, w.Q)) }, false},
 	{"local.Sub(P,Q)", always, func(w *world) []byte { return enc(w.g.Point().Sub(w.P, w.Q)) }, false},
 	{"local.Neg(P)", always, func(w *world) []byte { return enc(w.g.Point().Neg(w.P)) }, false},
@@ -452,10 +471,27 @@ func (Engine) RunOne(t *core.Tape, prop, tier string, info *core.RunInfo) *core.
 			avail = append(avail, i)
 		}
 	}
+	// cold mode (checks/C20.sh, one run per process): nothing of the library's package-level state has
+	// been used by this process except what building the shared world needed. The sequential reference
+	// execution is postponed until AFTER the concurrent one (it would warm everything up), and every
+	// task starts with a constructor call.
+	cold := os.Getenv("VERIF_RACE_COLD") != ""
+	var coldFirst []int
+	for _, i := range avail {
+		switch calls[i].name {
+		case "local.Base()", "local.Mul(s,nil)", "local.Null()+Scalar.One()", "Pair(A1,A2)", "suite.Hash+XOF", "group.String+lens":
+			coldFirst = append(coldFirst, i)
+		}
+	}
 	plan := make([][]int, ntask)
 	var names []string
 	for i := range plan {
 		n := 1 + t.Intn("cfg.calls", 6)
+		if cold && len(coldFirst) > 0 {
+			c := coldFirst[t.Intn("cfg.cold", len(coldFirst))]
+			plan[i] = append(plan[i], c)
+			names = append(names, fmt.Sprintf("t%d:%s", i, calls[c].name))
+		}
 		for k := 0; k < n; k++ {
 			// bias towards the calls that may normalise/cache inside a shared value
 			c := avail[t.Intn("cfg.call", len(avail))]
@@ -474,30 +510,46 @@ func (Engine) RunOne(t *core.Tape, prop, tier string, info *core.RunInfo) *core.
 	for i := range order {
 		order[i] = i
 	}
-	simyield.Begin(ntask, order, nil)
 	ref := make([][][]byte, ntask)
 	span := make([]int, ntask) // yield points each task passes when it runs alone
-	var pn any
-	for i := 0; i < ntask && pn == nil; i++ {
-		i := i
-		s0 := simyield.Steps()
-		pn = core.Guard(func() {
-			for _, c := range plan[i] {
-				ref[i] = append(ref[i], calls[c].f(w0))
-			}
-		})
-		span[i] = simyield.Steps() - s0
-		simyield.Leave(i)
+	total := 0
+	reference := func() *core.Violation {
+		simyield.Begin(ntask, order, nil)
+		var pn any
+		for i := 0; i < ntask && pn == nil; i++ {
+			i := i
+			s0 := simyield.Steps()
+			pn = core.Guard(func() {
+				for _, c := range plan[i] {
+					ref[i] = append(ref[i], calls[c].f(w0))
+				}
+			})
+			span[i] = simyield.Steps() - s0
+			simyield.Leave(i)
+		}
+		total = simyield.Steps()
+		_ = simyield.End()
+		if pn != nil {
+			return viol("totality", "sequential-panic/"+gr.name, "a read-only call panicked in the sequential reference execution: %v | %s", pn, core.LastStack())
+		}
+		if a := snapshot(w0); !bytes.Equal(a, before) {
+			return viol("unchanged", "shared-object-changed-sequentially/"+gr.name, "shared objects encode differently after read-only calls (sequential execution)")
+		}
+		return nil
 	}
-	total := simyield.Steps()
-	_ = simyield.End()
-	if pn != nil {
-		return viol("totality", "sequential-panic/"+gr.name, "a read-only call panicked in the sequential reference execution: %v | %s", pn, core.LastStack())
+	if !cold {
+		if v := reference(); v != nil {
+			return v
+		}
+		newRaceReports() // nothing can race in a sequential execution; drain anyway
+	} else {
+		// no measurement yet: assume a few dozen yield points per task for the placement of preemptions
+		for i := range span {
+			span[i] = 30
+		}
+		total = 30 * ntask
+		info.Faults["cold-process"]++
 	}
-	if a := snapshot(w0); !bytes.Equal(a, before) {
-		return viol("unchanged", "shared-object-changed-sequentially/"+gr.name, "shared objects encode differently after read-only calls (sequential execution)")
-	}
-	newRaceReports() // nothing can race in a sequential execution; drain anyway
 
 	// (1) the schedule
 	prio := t.Perm("sched.prio", ntask)
@@ -570,6 +622,13 @@ func (Engine) RunOne(t *core.Tape, prop, tier string, info *core.RunInfo) *core.
 			panic("harness: race report without a kyber frame:\n" + raw)
 		}
 		return v
+	}
+	if cold {
+		// the postponed reference execution (its results are what the concurrent ones are compared with)
+		if v := reference(); v != nil {
+			return v
+		}
+		newRaceReports()
 	}
 	// (2) sequential equivalence
 	for i := range plan {
